@@ -7,7 +7,7 @@ Engine K: the whole-recipe ScalableRecipe::scale / default_scale on a small conc
 import os, json, re
 from fractions import Fraction
 import scratch, kani_group, registry, native, mcheck, mir, smt, models
-from mir import SV, Agg, Enum, Opaque, OpenAgg
+from mir import SV, Agg, Enum, Opaque, OpenAgg, VecVal
 
 U = Fraction(1, 2 ** 53)
 PANIC_ONLY = False      # set by the C03 check: keep only the no-panic obligations
@@ -469,6 +469,12 @@ def m_part(run, scr, nat):
             for o in lin_outs:
                 x = o.value.variants["Ok"].fields["0"].variants["Number"].fields["0"].variants["Regular"].fields["0"].expr
                 validate.append((ff, reg, o.pc, x))
+    # O8 whole-recipe plumbing of ScalableRecipe::scale / default_scale: iterators, map closures, unzip / collect.
+    #    The per-component functions (decided above) are summarised by tokens "scaled(component, target)" /
+    #    "outcome(component, target)"; `fit` is a no-op here (that it keeps the amount is C09's claim).
+    if not PANIC_ONLY:
+        recipe_plumbing(run, c, ob, tgt, f)
+
     D = list(sem.decls)
     for (ff, reg, pc, x) in validate:
         fix = ["(= f %s)" % smt.rat(Fraction(ff)), "(= x_v_tag %d)" % V.idx["Number"], "(= x_v_n_tag 0)", "(= x_v_n_reg %s)" % smt.rat(Fraction(reg))]
@@ -500,6 +506,114 @@ def m_part(run, scr, nat):
         run.samples.append({"engine": "mir-smt", "obligation": items[0][0], "negated_post": items[0][2][:300]})
         run.samples.append({"engine": "mir-smt", "obligation": items[-1][0], "negated_post": items[-1][2][:300]})
     c.ms.close()
+
+
+def recipe_plumbing(run, c, ob, tgt, f):
+    sem, it, decls = c.sem, c.it, c.decls
+    F = c.dump.find_impl_method
+    f_scale = F("scale", r"\(_1: Recipe<Servings, ScalableValue>, _2: f64, _3: &Converter\)")
+    f_default = F("default_scale", r"\(_1: Recipe<Servings, ScalableValue>\) -> Recipe<Scaled, quantity::Value>")
+    run.functions.append("scale::ScalableRecipe::{scale, default_scale} (MIR; iterator chains over 2 ingredients, 1 cookware, 2 timers)")
+    rf = decls.structs["Recipe"]
+    sdf = decls.structs["ScaledData"]
+    saved = dict(it.models)
+    saved_fn_item = it.fn_item
+    it.models.update(models.ITER_MODELS)
+    summaries = {}
+
+    def comp(kind, i):
+        fields = decls.structs.lookup(kind, "model")
+        return Agg(kind, {str(k): Opaque("%s %d field %s" % (kind, i, fn)) for k, fn in enumerate(fields)})
+
+    def summary(kind, default):
+        fields = decls.structs.lookup(kind, "model")
+        qi = str(fields.index("quantity"))
+
+        def model(it_, a, callee):
+            comp_ = a[0]
+            key = (id(comp_), default)
+            if key not in summaries:
+                out = Agg(kind, {str(k): Opaque("%s of %s field %s" % ("default-scaled" if default else "scaled", kind, fn), [comp_])
+                                 for k, fn in enumerate(fields)})
+                tag = sem.fresh("Int", "hasq")
+                sem.decls.append("(assert (and (<= 0 %s) (<= %s 1)))" % (tag, tag))
+                out.fields[qi] = models.mk_option(it_, SV("isize", tag), Opaque("quantity of the scaled %s" % kind, [comp_]))
+                summaries[key] = (out, Opaque("outcome", [comp_]))
+            out, oc = summaries[key]
+            return out if default else Agg("tuple", {"0": out, "1": oc})
+        return model
+    for kind in ("Ingredient", "Cookware", "Timer"):
+        it.models[r"^<model::%s<ScalableValue> as Scale>::scale$" % kind] = summary(kind, False)
+    it.models[r"^convert::<impl quantity::Quantity>::fit$"] = lambda it_, a, cal: Opaque("fit result")
+    it.models[r"^ScaleTarget::new$"] = lambda it_, a, cal: Agg("ScaleTarget", {"0": a[0]})
+    it.fn_item = lambda path: summary([k for k in ("Ingredient", "Cookware", "Timer") if k in path][0], True) if "default_scale" in path else saved_fn_item(path)
+    ings = [comp("Ingredient", 0), comp("Ingredient", 1)]
+    cws = [comp("Cookware", 0)]
+    tms = [comp("Timer", 0), comp("Timer", 1)]
+    toks = {k: Opaque("recipe " + k) for k in ("metadata", "sections", "inline_quantities")}
+    recipe = Agg("Recipe", {str(rf.index("metadata")): toks["metadata"], str(rf.index("sections")): toks["sections"],
+                            str(rf.index("ingredients")): VecVal(ings), str(rf.index("cookware")): VecVal(cws),
+                            str(rf.index("timers")): VecVal(tms), str(rf.index("inline_quantities")): toks["inline_quantities"],
+                            str(rf.index("data")): Opaque("servings")})
+
+    def lists_ok(out, default):
+        conds = []
+        for name, comps in (("ingredients", ings), ("cookware", cws), ("timers", tms)):
+            got = out.fields[str(rf.index(name))]
+            if not isinstance(got, VecVal) or len(got.items) != len(comps):
+                return "false"
+            for g, cpt in zip(got.items, comps):
+                want = summaries.get((id(cpt), default))
+                conds.append(same(g, want[0]) if want else "false")
+        for k in ("metadata", "sections", "inline_quantities"):
+            conds.append("true" if out.fields[str(rf.index(k))] is toks[k] else "false")
+        return conj(conds)
+    n = 0
+    for o in it.run(f_scale, [recipe, SV("f64", f), Opaque("converter")]):
+        if o.kind == "panic":
+            ob("ScalableRecipe::scale never panics", o.pc, "true")
+            continue
+        if o.kind != "return":
+            continue
+        n += 1
+        out = o.value
+        data = out.fields[str(rf.index("data"))]
+        ok_data = "false"
+        if isinstance(data, Enum) and "Scaled" in data.variants:
+            sd = data.variants["Scaled"].fields["0"]
+            conds = ["(= %s %s)" % (sd.fields[str(sdf.index("target"))].fields["0"].expr, f)]
+            for name, comps in (("ingredients", ings), ("cookware", cws), ("timers", tms)):
+                lst = sd.fields[str(sdf.index(name))]
+                if not isinstance(lst, VecVal) or len(lst.items) != len(comps):
+                    conds.append("false")
+                    continue
+                for g, cpt in zip(lst.items, comps):
+                    want = summaries.get((id(cpt), False))
+                    conds.append("true" if (want and g is want[1]) else "false")
+            ok_data = conj(conds)
+        ob("ScalableRecipe::scale path[%s]: every component is replaced by its scaled version in place, the outcome lists line up with the "
+           "components, the target factor is recorded, metadata / sections / inline quantities are moved untouched" % ">".join(o.trace[-2:]),
+           o.pc, "(not (and %s %s))" % (lists_ok(out, False), ok_data))
+    if n == 0:
+        run.inconclusive.append("ScalableRecipe::scale: no returning path")
+    n = 0
+    for o in it.run(f_default, [recipe]):
+        if o.kind == "panic":
+            ob("ScalableRecipe::default_scale never panics", o.pc, "true")
+            continue
+        if o.kind != "return":
+            continue
+        n += 1
+        out = o.value
+        data = out.fields[str(rf.index("data"))]
+        is_default = "true" if (isinstance(data, Enum) and "DefaultScaling" in data.variants and len(data.variants) == 1) else "false"
+        ob("ScalableRecipe::default_scale path[%s]: every component default-scaled in place, reported as default scaling, the rest untouched" % ">".join(o.trace[-2:]),
+           o.pc, "(not (and %s %s))" % (lists_ok(out, True), is_default))
+    if n == 0:
+        run.inconclusive.append("ScalableRecipe::default_scale: no returning path")
+    it.models.clear()
+    it.models.update(saved)
+    it.fn_item = saved_fn_item
 
 
 # ---- replay through the public API -----------------------------------------------------------------
